@@ -65,9 +65,11 @@ PARTIAL = {
                                  "evaluated on the same polymorphic model term at Rat (decide +kernel), not restated "
                                  "at the reals; the tetrahedron band is proved at the reals (tetra_band_asIs, "
                                  "jolt_tetra_band_asIs_counterexample_real)",
-    "band_error_bounds": "inside the excluded bands (0 < |n|^2 < EPSILON_SQR, 0 < |b-a|^2 < EPSILON_SQR, plane value "
-                         "within EPSILON of 0) only line_degenerate (nearer endpoint is returned) is proved; no "
-                         "bounded-error lemma for the triangle / tetrahedron bands",
+    "band_error_bounds": "triangle band of the repaired test (|n|^2 <= EPSILON*L^4): triangle_sliver_bound proves the "
+                         "fallback is the minimiser over the three edges and within sqrt(EPSILON)*L of the minimum "
+                         "norm; for the segment band (0 < |b-a|^2 < EPSILON_SQR) only line_degenerate (nearer endpoint "
+                         "is returned) and for the tetrahedron plane band only tetra_band_asIs (result is not the "
+                         "minimiser) are proved, no error bound",
     "relative_interior": "the theorems state that the hull of the sub-simplex named by the set bits contains the "
                          "returned point, not that the point lies in its relative interior",
 }
@@ -1359,8 +1361,8 @@ def search(ctx):
         ctx.extra.setdefault(k, {})
     boost = 2 if ctx.extra.get("search_boost") else 1
     t0 = time.time()
-    cap = ctx.budget(45, 600) * boost
-    nl = ctx.budget(6000, 60000) * boost
+    cap = ctx.budget(30, 600) * boost
+    nl = ctx.budget(5000, 60000) * boost
     for _ in range(nl):
         k = ctx.rng.choice([2, 3, 3, 4, 4, 4])
         run_oracles(ctx, lattice_cfg(ctx.rng.randrange(27 ** k), k), "L")
@@ -1378,7 +1380,7 @@ def search(ctx):
             ctx.notes.append("search: near-duplicate stream stopped by the time cap")
             break
     nprs = np.random.RandomState(ctx.rng.randrange(2 ** 32))
-    ng = ctx.budget(20000, 200000) * boost
+    ng = ctx.budget(16000, 200000) * boost
     for i in range(ng):
         P, meta = general_case(ctx.rng, nprs, inside=(True if i % 8 == 0 else None), k=(4 if i % 8 == 0 else None))
         run_oracles(ctx, P, "G")
